@@ -114,13 +114,16 @@ async def session(sc):
         class Cli(asyncssh.SSHClient):
             def connection_lost(self, exc):
                 lost['exc'] = exc
-        akw = {'kex_algs': [sc['kex']], 'encryption_algs': sc['encs'], 'compression_algs': ['none'],
-               'rekey_bytes': sc['rekey_bytes']}
+        comp = sc.get('comp', 'none')
+        rekey_seconds = sc.get('rekey_seconds', 3600)
+        akw = {'kex_algs': [sc['kex']], 'encryption_algs': sc['encs'], 'compression_algs': [comp],
+               'rekey_bytes': sc['rekey_bytes'], 'rekey_seconds': rekey_seconds}
+        P.clock.now = 0.0
         if sc['mac']:
             akw['mac_algs'] = [sc['mac']]
         if role == 'client':
             mini = M.MiniSSH('client', kex_algs=[kex], enc_algs=[encs[0]], mac_algs=[mac] if mac else None,
-                             hostkey_algs=[b'ssh-ed25519'], strict_kex=sc['strict'])
+                             hostkey_algs=[b'ssh-ed25519'], strict_kex=sc['strict'], comp_algs=(comp.encode(),))
             link = TapLink(mini, P, is_client=False)
             acc = await asyncssh.listen('mem', 22, tunnel=link, server_factory=Srv, encoding=None,
                                         server_host_keys=[T.asyncssh_key('ssh-ed25519')], **akw)
@@ -150,7 +153,8 @@ async def session(sc):
             rx_dir = 'sc'
         else:
             mini = M.MiniSSH('server', host_key=T.crypto_key(b'ssh-ed25519'), kex_algs=[kex], enc_algs=[encs[0]],
-                             mac_algs=[mac] if mac else None, hostkey_algs=[b'ssh-ed25519'], strict_kex=sc['strict'])
+                             mac_algs=[mac] if mac else None, hostkey_algs=[b'ssh-ed25519'], strict_kex=sc['strict'],
+                             comp_algs=(comp.encode(),))
             link = TapLink(mini, P, is_client=True)
             connect = asyncio.ensure_future(asyncssh.connect(
                 'mem', 22, tunnel=link, known_hosts=None, username='u', client_keys=None, config=None,
@@ -237,7 +241,10 @@ async def session(sc):
                 mini.start_rekey()
                 push(b'during-rekey-%d' % before)             # data while the exchange runs, both directions
                 await settle_exchange(before)
-            elif step == 'async':                 # asyncssh's byte limit starts it
+            elif step == 'async':                 # asyncssh starts it: byte limit, or (sessions with compression,
+                if sc.get('time_trigger'):        # where the model does not know the framed lengths) the time limit
+                    P.clock.now += rekey_seconds + 50
+                    link.tap.tick(P.clock.now)
                 for _ in range(400):
                     if mini.kex_count > before or mini.kex_in_progress:
                         break
@@ -338,7 +345,7 @@ async def session(sc):
                     ops.pop()
         res['ops'] = ops
         res['final'] = (code, None, None, None)
-        res['cfg'] = (role == 'server', sc['rekey_bytes'], 3600)
+        res['cfg'] = (role == 'server', sc['rekey_bytes'], int(rekey_seconds))
         return res
     finally:
         P.restore()
@@ -364,8 +371,14 @@ def gen(rng, k):
              ['async', 'async', 'algs', 'async']]
     if k % 7 == 6:      # KEXINIT in place of the peer's NEWKEYS (see session(): stateless cipher, non-strict kex)
         return {'role': 'client', 'kex': 'curve25519-sha256', 'encs': ['chacha20-poly1305@openssh.com'], 'mac': None,
-                'strict': False, 'rekey_bytes': 1 << 30, 'plan': ['mini'], 'tail': 'kexinit_early'}
-    return {'role': 'client' if k % 2 == 0 else 'server',
+                'strict': False, 'rekey_bytes': 1 << 30, 'plan': ['mini'], 'tail': 'kexinit_early', 'comp': 'none'}
+    sc = {'role': 'client' if k % 2 == 0 else 'server',
             'kex': rng.choice(['curve25519-sha256', 'ecdh-sha2-nistp256', 'diffie-hellman-group14-sha256']) if k % 3 == 0 else 'curve25519-sha256',
             'encs': encs, 'mac': mac, 'strict': k % 4 != 3, 'rekey_bytes': rng.choice([3000, 8192]) if 'async' in plans[k % len(plans)] else 1 << 30,
             'plan': plans[k % len(plans)], 'tail': [None, 'oldkeys', 'newkeys', 'kexinit2', 'newkeys'][k % 5]}
+    sc['comp'] = ['none', 'zlib', 'zlib@openssh.com'][(k // 2) % 3]
+    if sc['comp'] != 'none':
+        # with compression the framed lengths are not known to the model: the asyncssh side re-keys on its time
+        # limit (virtual clock) instead of its byte limit
+        sc.update(rekey_bytes=1 << 30, rekey_seconds=100, time_trigger=True)
+    return sc
